@@ -190,6 +190,70 @@ def run_batch(task, items, workers=None, timeout=30.0, deadline=None, on_result=
     return results
 
 
+def run_in_child_stream(fn, args=(), idle_timeout=30.0):
+    """Run fn(*args, emit) in a forked child; emit(obj) streams framed pickles back.
+
+    Returns (status, messages) with status ok | timeout | died. `timeout` means no message
+    arrived for idle_timeout seconds (the child is killed)."""
+    r, w = os.pipe()
+    pid = os.fork()
+    if pid == 0:
+        code = 0
+        try:
+            os.close(r)
+            gc.disable()
+
+            def emit(obj):
+                payload = pickle.dumps(obj, protocol=4)
+                _write_all(w, struct.pack("<Q", len(payload)) + payload)
+
+            try:
+                fn(*args, emit)
+            except BaseException:
+                emit(("exc", traceback.format_exc()))
+                code = 4
+        except BaseException:
+            code = 3
+        finally:
+            os._exit(code)
+    os.close(w)
+    buf = bytearray()
+    msgs = []
+    status = "ok"
+    last = time.monotonic()
+    while True:
+        left = idle_timeout - (time.monotonic() - last)
+        if left <= 0:
+            try:
+                os.kill(pid, signal.SIGKILL)
+            except ProcessLookupError:
+                pass
+            status = "timeout"
+            break
+        rl, _, _ = select.select([r], [], [], min(left, 1.0))
+        if not rl:
+            continue
+        b = os.read(r, 1 << 20)
+        if not b:
+            break
+        last = time.monotonic()
+        buf += b
+        while len(buf) >= 8:
+            (n,) = struct.unpack("<Q", bytes(buf[:8]))
+            if len(buf) < 8 + n:
+                break
+            msgs.append(pickle.loads(bytes(buf[8 : 8 + n])))
+            del buf[: 8 + n]
+    os.close(r)
+    try:
+        _, st = os.waitpid(pid, 0)
+        if status == "ok" and st != 0:
+            status = "died"
+    except ChildProcessError:
+        pass
+    return status, msgs
+
+
 class HarnessError(Exception):
     pass
 
